@@ -15,7 +15,7 @@ DATA = {
     1: dict(q=(2, 4), r=1, p=(-1, 3), A=((1, -2), (3, 1)), d=(2, 0), lx=(-4, -INF), ux=(4, 6)),
     2: dict(q=(0, 4), r=-2, p=(2, -2), A=((0, 1), (-1, 2)), d=(0, -2), lx=(-INF, -6), ux=(INF, 6)),
 }
-ROWS = {"eq0": (0, 0), "eq": (3, 3), "lower": (-1, INF), "upper": (-INF, 2), "ranged": (-2, 5), "free": (-INF, INF)}
+ROWS = {"eq0": (0, 0), "eq": (3, 3), "lower": (-1, INF), "upper": (-INF, 2), "ranged": (-2, 5), "narrow": (1048576, 1048577), "free": (-INF, INF)}
 
 
 def fv(v):
@@ -117,7 +117,7 @@ def main():
         fmts = ("coo", "csr", "csc")
         stride = 1 if chk.thorough else 4
         for si, st in enumerate(states):
-            if si % stride:
+            if ((si * 2654435761 >> 8) + chk.seed) % stride:      # scattered, not periodic: the enumeration order is structured
                 continue
             c, out = st["c"], st["out"]
             try:
